@@ -101,7 +101,7 @@ class Ctx:
 
     # ---------------------------------------------------------------- TLC
     def tlc(self, module: str, cfg: str, *, workers: int | None = None, dump: bool = False,
-            env: dict | None = None, extra: list | None = None, timeout: int = 3600,
+            env: dict | None = None, extra: list | None = None, timeout: int = 1800,
             simulate: str | None = None, tag: str | None = None, check: bool = True,
             heap: str | None = None) -> dict:
         tag = tag or cfg.replace(".cfg", "")
